@@ -63,11 +63,9 @@ def main(argv=None):
                      'resolving a persistent reference through the pickle cache yields the object that was pickled '
                      '(idealised in the model, exercised by the run; C14 is about reference round trips)',
                      'the second connection only commits payload changes of committed objects',
-                     'finding C11:new-object-keeps-oid-after-failed-store is fixed (the model is of the repaired '
-                     '_store_objects, the reproducer is the first corpus case); open finding '
-                     'C11:stored-new-object-ghostified-on-abort: the clause "the un-added object keeps its state" is '
-                     'proved for runs that do not go through that situation (flag d2 of the model) with a negation '
-                     'witness; a case is compared with the model up to the first finding'])
+                     'findings C11:new-object-keeps-oid-after-failed-store and C11:stored-new-object-ghostified-on-abort are '
+                     'fixed in /repo (the model is of the repaired code; the reproducers are the first corpus cases and '
+                     'both signatures stay as regressions); a case is compared with the model up to the first finding'])
 
 
 if __name__ == '__main__':
